@@ -79,6 +79,13 @@ def sweep(ctx, as_strings=False):
                 yield (val(st), val(kind), val(ex), val(ms), rr, rs)
 
 
+def sweep_again(g):
+    statuses, kinds, execs, reported = g.domain()
+    for st, kind, ex in itertools.product(statuses, kinds, execs):
+        for ms in reported:
+            yield (val(st), val(kind), val(ex), val(ms), g.cell(st, kind, ex, ms, True), None)
+
+
 def run(ctx):
     cells = list(sweep(ctx))
     by_key = {}
@@ -97,6 +104,17 @@ def run(ctx):
                      "laws violated: %s (raise->%d, no-raise->%d)" % (",".join(bad), rr, rs),
                      classify(st, kind, ex, ms, bad))
     ctx.extra["exhaustive"] = True
+    # the transition function is a function: asking again (after the no-raise call of the same cell) gives the same answer
+    # (added after seeded change C16-5, a result cache keyed without the error mode)
+    from translator import gen_change_status as g
+    again = 0
+    for (st, kind, ex, ms, rr, rs) in sweep_again(g):
+        again += 1
+        if by_key[(st, kind, ex, ms)][0] != rr:
+            ctx.fail({"status": st, "kind": kind, "exec_type": ex, "reported": ms, "order": "raise,no-raise,raise"},
+                     "result depends on the call history: raise mode gave %d first and %d after the no-raise call of the same cell"
+                     % (by_key[(st, kind, ex, ms)][0], rr), None)
+    ctx.extra["repeat_evaluations"] = again
     # glue: plain strings instead of enum members reach the same cells
     diff = 0
     for (st, kind, ex, ms, rr, rs) in sweep(ctx, as_strings=True):
@@ -134,6 +152,11 @@ def replay(path):
         return 1
     rr = g.cell(c["status"], c["kind"], c["exec_type"], c["reported"], True)
     rs = g.cell(c["status"], c["kind"], c["exec_type"], c["reported"], False)
+    if c.get("order"):
+        rr2 = g.cell(c["status"], c["kind"], c["exec_type"], c["reported"], True)
+        print("replay C16 cell %s: raise mode %d, then no-raise %d, then raise mode again %d" % (c, rr, rs, rr2))
+        if rr2 != rr:
+            return 1
     bad = laws(c["status"], c["kind"], c["exec_type"], c["reported"], rr, rs)
     print("replay C16 cell %s -> raise:%d soft:%d violated:%s" % (c, rr, rs, bad))
     return 1 if bad else 0
